@@ -3,6 +3,7 @@ package udpl
 import (
 	"strings"
 	"testing"
+	"time"
 
 	"verifharness/sched"
 )
@@ -42,6 +43,54 @@ func TestRegressC12_AcceptVsClose(t *testing.T) {
 		}
 		sc = c12Scenario{Accepted: 1, Unaccepted: 1, LClose: 1, Accept: 1, CClose: []int{1}, Readers: []bool{false}}
 		if msg := runC12(sc, acceptThenClose{}, nil, func(string, ...any) {}); msg != "" && !strings.HasPrefix(msg, "VERIF-INFRA") {
+			t.Fatalf("%s", msg)
+		}
+	}
+}
+
+// closeVsLateConn is the shrunk schedule of C12-conn-close-stale-last-user:
+// a parked Accept, a connection Close that has just counted "no other
+// connection", then a datagram of a new remote (accepted by the parked
+// Accept), then the listener's Close, then the connection Close goes on.
+type closeVsLateConn struct{ slept bool }
+
+func passedKind(t *sched.Task, kind string) bool {
+	for _, l := range t.Passed() {
+		if strings.HasSuffix(l, ":"+kind) {
+			return true
+		}
+	}
+	return false
+}
+
+func (c *closeVsLateConn) Pick(s *sched.Session, enabled []*sched.Task) *sched.Task {
+	byName := map[string]*sched.Task{}
+	for _, t := range enabled {
+		byName[t.Name] = t
+	}
+	if t := byName["accept0"]; t != nil && !passedKind(t, "select") {
+		return t
+	}
+	if t := byName["cclose0.0"]; t != nil && !passedKind(t, "unlock") {
+		return t
+	}
+	if t := byName["send-new"]; t != nil {
+		return t
+	}
+	if !c.slept {
+		c.slept = true
+		time.Sleep(5 * time.Millisecond) // the free-running read loop queues the new connection, the parked Accept takes it
+	}
+	if t := byName["lclose0"]; t != nil {
+		return t
+	}
+	return enabled[0]
+}
+
+func TestRegressC12_CloseVsLateConn(t *testing.T) {
+	for round := 0; round < 5; round++ {
+		sc := c12Scenario{Accepted: 1, LClose: 1, Accept: 1, CClose: []int{1}, Readers: []bool{false}, SendNew: true}
+		if msg := runC12(sc, &closeVsLateConn{}, nil, func(string, ...any) {}); msg != "" && !strings.HasPrefix(msg, "VERIF-INFRA") {
 			t.Fatalf("%s", msg)
 		}
 	}
